@@ -403,6 +403,12 @@ def run(i):
 
 def replay(path):
     doc = jdec(json.load(open(path)))
+    if 'foreign' in doc['scenario']:
+        res = [x for x in foreign_request_cases()[1] if x[3]['foreign'] == doc['scenario']['foreign']]
+        for r in res:
+            print('reproduced:', r[0], r[1], r[2])
+        print('REPLAY %s' % ('reproduces a violation' if res else 'does not reproduce'))
+        sys.exit(1 if res else 0)
     w = build(doc['scenario'])
     res = []
     for ev in doc['history']:
@@ -416,9 +422,71 @@ def replay(path):
     sys.exit(1 if res else 0)
 
 
+def foreign_request_cases():
+    """authentic requests as an implementation that is not pyikev2 may send them - a payload of a type this daemon does not
+    know, with and without the critical bit, inside the protected part of an INFORMATIONAL or CREATE_CHILD_SA request, or in
+    front of it - each delivered TWICE (the network duplicates).  Whatever the daemon answers to the first copy, the second
+    copy gets the very same octets (or nothing, if the first got nothing), the window moves at most once, and the next
+    genuine request of the peer is executed."""
+    from harness import forge as F
+    out, n = [], 0
+    for exch in (37, 36):
+        for ptype, crit in ((49, 1), (49, 0), (200, 1), (47, 1), (38, 0)):
+            for where in ('alone', 'before-a-notification'):
+                n += 1
+                lab = 'foreign-request:exchange-%d:payload-%d:%s:%s' % (exch, ptype, 'critical' if crit else 'not-critical', where)
+                w = S.established(C.CONFIGS['match']())
+                w.sent_log, w.recv_log = [], []
+                a, b = w.endpoints['A'], w.endpoints['B']
+                sa_a, sa_b = a.controller.ike_sas[0], b.controller.ike_sas[0]
+                keys = F.Keys(sa_a.my_crypto)
+                import struct
+                mid = sa_a.my_msg_id
+                body = b'\x01\x02\x03\x04'
+                tail = b'' if where == 'alone' else struct.pack('>BBH', 0, 0, 12) + F.n_body(16384 + 99)
+                inner = struct.pack('>BBH', 0 if where == 'alone' else F.NOTIFY, 0x80 if crit else 0, 4 + len(body)) + body + tail
+                data = F.protect(bytes(sa_a.spi_i), bytes(sa_a.spi_r), exch, 0x08, mid, None, keys, first_inner=ptype, inner=inner)
+                answers = []
+                window = [sa_b.peer_msg_id]
+                for copy in (1, 2):
+                    w.step(('inject', 'B', data, S.IP_A))
+                    answers.append([bytes(d.data) for d in w.step_emitted if d.sender == 'B'])
+                    w.net[:] = []
+                    window.append(sa_b.peer_msg_id if b.alive and sa_b in b.controller.ike_sas and sa_b.state != State.DELETED else None)
+                doc = dict(foreign=lab)
+                if not b.alive:
+                    out.append(('M-win', 'foreign-request-kills:%s' % b.dead_reason[0], '%s: B died: %s' % (lab, b.dead_reason[1][:200]), doc))
+                    continue
+                if window[1] is None:
+                    continue          # the first copy cost the IKE_SA (a request this daemon cannot make sense of): the second finds none
+                if answers[0] != answers[1]:
+                    out.append(('M-win', 'copy-answered-differently:exchange-%d:%s:%s' % (exch, 'critical' if crit else 'not-critical', where),
+                                '%s: the first copy was answered with %d datagram(s), the second with %d, and they are %s' % (
+                                    lab, len(answers[0]), len(answers[1]), 'different octets' if answers[0] and answers[1] else 'not both there'), doc))
+                if window[2] is not None and window[2] - window[0] > 1:
+                    out.append(('M-win', 'window-moved-twice:exchange-%d:%s:%s' % (exch, 'critical' if crit else 'not-critical', where),
+                                '%s: B expected request %d before, %d after the first copy and %d after the second' % (
+                                    lab, window[0], window[1], window[2]), doc))
+                if not b.controller.ike_sas:
+                    continue          # the request cost the IKE_SA (malformed for this daemon): nothing more to ask
+                # the peer goes on: its next genuine request is executed
+                if answers[0]:
+                    sa_a.my_msg_id = mid + 1      # (the forged request was the peer's request number `mid`)
+                w.step(('due', 'A', 0, 'dpd'))
+                w.deliver_all()
+                if a.alive and a.controller.ike_sas and a.controller.ike_sas[0].state != State.ESTABLISHED:
+                    out.append(('M-win', 'next-request-not-executed:exchange-%d:%s:%s' % (exch, 'critical' if crit else 'not-critical', where),
+                                '%s: the liveness check the peer sends next is not answered (A is left in %s)' % (
+                                    lab, a.controller.ike_sas[0].state.name), doc))
+    return n, out
+
+
 def main():
     if ck.args.replay:
         replay(ck.args.replay)
+    n_fr, fr = foreign_request_cases()
+    for mon, sig, msg, doc in fr:
+        ck.violation('%s:%s' % (mon, sig), msg, dict(scenario=doc, history=[]))
     stats, samples = [], []
     cover = collections.Counter()
     for sc, sm in zip(SCEN, ck.pmap(run, range(len(SCEN)))):
